@@ -44,7 +44,7 @@ def safe_str(p):
         return f"<unprintable: {type(e).__name__}> {p.INTERNAL_proc()!r}"[:3000]
 
 
-def check_schedule(case, prop, nvals, after_step=None, stop_on_internal=False):
+def check_schedule(case, prop, nvals, after_step=None, unsafe_is_violation=False):
     """shared by C01/C04/C10: build, apply steps, compare every accepted step with p0.
     after_step(p_prev, p_new, desc, k) may raise Violation (extra per-step oracles)."""
     from exo.core.proc_eqv import get_strictest_eqv_proc
@@ -95,6 +95,17 @@ def check_schedule(case, prop, nvals, after_step=None, stop_on_internal=False):
         for fv, o0 in live:
             o1 = run_outcome(irq, fv, cfg_types=CFG_TYPES)
             bad = compare_outcomes(o0, o1, allowed)
+            if bad and bad[0].startswith("unsafe:") and not unsafe_is_violation:
+                # the derived procedure trips a safety monitor: that is C04's verdict
+                classes.append("derived-unsafe(C04)")
+                bad = None
+            if bad and unsafe_is_violation and not bad[0].startswith("unsafe:"):
+                # C04 only judges safety / initialisation; value changes are C01's
+                if "derived POISON" in bad[1]:
+                    bad = ("uninitialised-read", bad[1])
+                else:
+                    classes.append("value-mismatch(C01)")
+                    bad = None
             if bad:
                 kind, det = bad
                 raise Violation(
